@@ -17,6 +17,9 @@
    `parse` is std::from_chars; what is assumed about it appears as the premises parse_bound / parse_local / parse_nil. *)
 From Coq Require Import List Ascii ZArith Bool Arith.
 From Alpaqa Require Import Csv CsvProofs.
+From Alpaqa Require Import CsvGenLib CsvGen CsvGenInst CsvGenEq.
+   (* CsvGen.v is REGENERATED from csv.tpp / print.tpp on every run (translate/gen_csv.py);
+      CsvGenEq.v proves every generated piece equal to the piece of Csv.v it corresponds to *)
 Import ListNotations.
 
 (* (0) MAIN, all field lengths: for every well-formed row the chunked reader equals the row specification with the
@@ -189,6 +192,92 @@ Theorem C17_empty_row_after_comment_rejected :
 Proof. exact (@empty_row_after_comment_rejected). Qed.
 Print Assumptions C17_empty_row_after_comment_rejected.
 
+(* ---------------------------------------------------------------- the reader state machine as translated on this run *)
+(* The GENERATED member functions work on the C++ object (array s, fill level bufidx, keep_reading); Csv.v on the window
+   s[0 .. bufidx) (rabs).  Each generated member function commutes with that abstraction — same stream afterwards, same
+   read_error, abstracted object — and preserves the object invariant bufidx <= |s|.  from_chars is the parameter fc
+   (ok / invalid_argument / result_out_of_range + characters consumed); the model's `parse` is `parse_of fc`. *)
+Theorem C17_generated_read_chunk_is_model : forall V (fc : list ascii -> fc_result V) s bufidx kp is, bufidx <= length s ->
+  match g_read_chunk fc s bufidx kp is with
+  | (is', inl e) => read_chunk (rabs s bufidx kp) is = (is', inl e)
+  | (is', inr (s', bufidx', kp')) => read_chunk (rabs s bufidx kp) is = (is', inr (rabs s' bufidx' kp')) /\ bufidx' <= length s'
+  end.
+Proof. exact g_read_chunk_is_model. Qed.
+Print Assumptions C17_generated_read_chunk_is_model.
+
+Theorem C17_generated_read_single_is_model : forall V (fc : list ascii -> fc_result V) s bufend v0, bufend <= length s ->
+  g_read_single fc s 0 bufend v0
+  = match read_single (parse_of fc) (firstn bufend s) with Some (x, k) => inr (k, x) | None => inl EConversion end.
+Proof. exact g_read_single_is_model. Qed.
+Print Assumptions C17_generated_read_single_is_model.
+
+(* fc_bound: from_chars(first, last, v) never consumes beyond last *)
+Theorem C17_generated_read_is_model : forall V (fc : list ascii -> fc_result V) garbage s bufidx kp is sep, fc_bound fc -> bufidx <= length s ->
+  match g_read fc garbage s bufidx kp is sep with
+  | (is', inl e) => read (parse_of fc) sep (rabs s bufidx kp) is = (is', inl e)
+  | (is', inr (v, s', bufidx', kp')) =>
+      read (parse_of fc) sep (rabs s bufidx kp) is = (is', inr (v, rabs s' bufidx' kp')) /\ bufidx' <= length s'
+  end.
+Proof. exact g_read_is_model. Qed.
+Print Assumptions C17_generated_read_is_model.
+
+Theorem C17_generated_next_line_is_model : forall V (fc : list ascii -> fc_result V) s bufidx kp is, bufidx <= length s ->
+  g_next_line fc s bufidx kp is = next_line (rabs s bufidx kp) is.
+Proof. exact g_next_line_is_model. Qed.
+Print Assumptions C17_generated_next_line_is_model.
+
+Theorem C17_generated_done_is_model : forall V (fc : list ascii -> fc_result V) s bufidx kp is, bufidx <= length s ->
+  g_done fc s bufidx kp is = done (rabs s bufidx kp) is.
+Proof. exact g_done_is_model. Qed.
+Print Assumptions C17_generated_done_is_model.
+
+(* whole rows: the row readers built from the generated member functions (the loops of skip_comments / read_row_impl /
+   read_row_std_vector are transcribed by hand in CsvGenInst.v, every member call in them is the generated definition)
+   ARE the row readers of Csv.v, for every stream *)
+Theorem C17_generated_rows_are_model_rows : forall V (fc : list ascii -> fc_result V) (garbage : V) (sep : ascii), fc_bound fc ->
+  (forall n is, g_read_row_impl fc garbage sep n is = read_row_impl (parse_of fc) sep n is) /\
+  (forall is, g_read_row_std_vector fc garbage sep is = read_row_std_vector (parse_of fc) sep is).
+Proof. exact (fun V fc g sep HB => conj (generated_read_row_impl_is_model fc g sep HB) (generated_read_row_std_vector_is_model fc g sep HB)). Qed.
+Print Assumptions C17_generated_rows_are_model_rows.
+
+(* (G0) MAIN theorem (0) restated for the generated reader *)
+Theorem C17_generated_chunked_equals_spec64_vector :
+  forall (V : Type) (fc : list ascii -> fc_result V) (garbage : V) (sep : ascii) (numch : ascii -> bool),
+  fc_bound fc ->
+  (forall a c b, numch c = false -> parse_of fc (a ++ c :: b) = parse_of fc a) ->
+  numch sep = false -> numch plus = true ->
+  forall cs line t, row_wf cs line ->
+  match spec_row64 (parse_of fc) sep line with
+  | Some vs => g_read_row_std_vector fc garbage sep (gs (comment_block cs ++ line ++ nl :: t)) = (gs t, inr vs)
+  | None => exists e s', g_read_row_std_vector fc garbage sep (gs (comment_block cs ++ line ++ nl :: t)) = (s', inl e) /\ Tail s' t
+  end.
+Proof. exact generated_chunked_equals_spec64_vector. Qed.
+Print Assumptions C17_generated_chunked_equals_spec64_vector.
+
+Theorem C17_generated_chunked_equals_spec64_fixed :
+  forall (V : Type) (fc : list ascii -> fc_result V) (garbage : V) (sep : ascii) (numch : ascii -> bool),
+  fc_bound fc ->
+  (forall a c b, numch c = false -> parse_of fc (a ++ c :: b) = parse_of fc a) ->
+  parse_of fc [] = None ->
+  numch sep = false -> numch plus = true ->
+  forall n cs line t, row_wf cs line ->
+  match spec_row64_n (parse_of fc) sep n line with
+  | Some vs => g_read_row_impl fc garbage sep n (gs (comment_block cs ++ line ++ nl :: t)) = (gs t, inr vs)
+  | None => exists e s', g_read_row_impl fc garbage sep n (gs (comment_block cs ++ line ++ nl :: t)) = (s', inl e) /\ Tail s' t
+  end.
+Proof. exact generated_chunked_equals_spec64_fixed. Qed.
+Print Assumptions C17_generated_chunked_equals_spec64_fixed.
+
+(* the printer side of (3): the sign rule of float_to_str_vw is print_elem, its default precision is max_digits10 of the
+   value's own type (what the hypothesis `parse (to_chars v) = Some (v, ..)` of C17_print_read_roundtrip rests on), the window
+   size and the line terminator are the model's *)
+Theorem C17_generated_printer_and_constants_are_model :
+  (forall V (to_chars : V -> list ascii) (signbit isnan : V -> bool) v,
+     g_print_elem to_chars signbit isnan v = print_elem to_chars (fun v => signbit v || isnan v) v) /\
+  g_print_precision_follows_value_type = true /\ g_bufmaxsize = bufmax /\ g_end = nl.
+Proof. exact (conj g_print_elem_is_model (conj g_print_precision_is_model (conj g_bufmaxsize_is_model g_end_is_model))). Qed.
+Print Assumptions C17_generated_printer_and_constants_are_model.
+
 (* non-vacuity: row_ok is met by an 89-byte row (10 fields) behind a 101-byte comment line; the reader returns the
    ten numbers and stands at the next row; asked for 9 numbers it raises an error and leaves the newline in place *)
 Example C17_nonvacuous :
@@ -198,3 +287,11 @@ Example C17_nonvacuous :
   read_row_impl parse_int64 comma 9 (gs (comment_block [nv_comment] ++ nv_line ++ nl :: nv_tail))
     = (gs (nl :: nv_tail), inl ENotConsumed).
 Proof. exact (conj nv_row_ok nv_reads). Qed.
+
+(* the generated member functions inside the row readers (CsvGenInst.v) on the same 89-byte row: same results *)
+Example C17_nonvacuous_generated :
+  g_read_row_std_vector (fc_of_parse parse_int64) 0%Z comma (gs (comment_block [nv_comment] ++ nv_line ++ nl :: nv_tail))
+    = (gs nv_tail, inr (repeat 12345678%Z 10)) /\
+  g_read_row_impl (fc_of_parse parse_int64) 0%Z comma 9 (gs (comment_block [nv_comment] ++ nv_line ++ nl :: nv_tail))
+    = (gs (nl :: nv_tail), inl ENotConsumed).
+Proof. split; vm_compute; reflexivity. Qed.
